@@ -414,7 +414,7 @@ impl<P: RuntimeProvider + Send + Sync> SqliteZoneHandler<P> {
 
             match require.dns_class {
                 DNSClass::ANY => {
-                    if let RData::Update0(_) | RData::NULL(..) = require.data {
+                    if let RData::Update0(_) = require.data {
                         match require.record_type() {
                             // ANY      ANY      empty    Name is in use
                             RecordType::ANY => {
@@ -453,7 +453,7 @@ impl<P: RuntimeProvider + Send + Sync> SqliteZoneHandler<P> {
                     }
                 }
                 DNSClass::NONE => {
-                    if let RData::Update0(_) | RData::NULL(..) = require.data {
+                    if let RData::Update0(_) = require.data {
                         match require.record_type() {
                             // NONE     ANY      empty    Name is not in use
                             RecordType::ANY => {
@@ -666,7 +666,7 @@ impl<P: RuntimeProvider + Send + Sync> SqliteZoneHandler<P> {
                         }
 
                         match rr.data {
-                            RData::Update0(_) | RData::NULL(..) => {}
+                            RData::Update0(_) => {}
                             _ => return Err(ResponseCode::FormErr),
                         }
 
@@ -862,7 +862,7 @@ impl<P: RuntimeProvider + Send + Sync> SqliteZoneHandler<P> {
                             //   SOA or NS RRs will be deleted.
 
                             // ANY      rrset    empty    Delete an RRset
-                            if let RData::Update0(_) | RData::NULL(..) = rr.data {
+                            if let RData::Update0(_) = rr.data {
                                 let deleted = self.in_memory.records_mut().await.remove(&rr_key);
                                 info!("deleted rrset: {deleted:?}");
                                 updated = updated || deleted.is_some();
